@@ -87,6 +87,10 @@ func (g *vfGen) genC12() {
 			kind = "pragma"
 			decl = fmt.Sprintf("<meta content=\"text/html; charset='%s'; x=y\" data-x=1 http-equiv=content-type>", l)
 		}
+		if i%9 == 0 {
+			// a long prologue: the declaration sits beyond byte 1024 but inside the default limit
+			p = "<html><!-- " + strings.Repeat("long comment ", 70+g.rng.Intn(60)) + "--><script>var s='<meta charset=fake4>';" + strings.Repeat("x=1;", 40) + "</script>"
+		}
 		doc := p + decl + "</head><body>caf\xe9 text</body></html>"
 		g.emit(vfOp("decl", kind, []byte(l), []byte(doc), 0))
 		g.emit(vfOp("cs", "html", []byte(doc)))
